@@ -620,6 +620,7 @@ func c15OutCase(r *fw.R, sh *c15shape, mask int, tsig bool) {
 		secrets = c15Secrets()
 	}
 	var stream []byte
+	var savedReq []byte
 	var reqMAC string
 	problem := ""
 	res := c15In(sh.query(tsig), secrets, 0, func(written []byte) []byte {
@@ -629,6 +630,7 @@ func c15OutCase(r *fw.R, sh *c15shape, mask int, tsig bool) {
 			return nil
 		}
 		reqMAC = mac
+		savedReq = append([]byte(nil), written...)
 		out, outErr, handled, srvErr := c15ServeOut(written, secrets, envRR)
 		if outErr != nil || srvErr != nil || handled != 1 {
 			problem = fmt.Sprintf("server: Transfer.Out error %v, ActivateAndServe error %v, handler calls %d", outErr, srvErr, handled)
@@ -691,6 +693,39 @@ func c15OutCase(r *fw.R, sh *c15shape, mask int, tsig bool) {
 			break
 		}
 		prev = t.MAC
+	}
+	if tsig && savedReq != nil {
+		// the same signed request twice on one connection: the second transfer is a transfer of its own — its first
+		// message is signed over the request MAC with all TSIG variables, whatever the first transfer left behind
+		out2, outErr, handled, srvErr := c15ServeOut(append(append([]byte(nil), savedReq...), savedReq...), secrets, envRR)
+		if outErr != nil || srvErr != nil || handled != 2 {
+			r.Fail("out/second-transfer/server", "%s: two requests on one connection: Transfer.Out error %v, ActivateAndServe error %v, handler calls %d", desc(), outErr, srvErr, handled)
+		} else {
+			prev, off := reqMAC, 0
+			for i := 0; off < len(out2); i++ {
+				if off+2 > len(out2) || off+2+int(binary.BigEndian.Uint16(out2[off:])) > len(out2) {
+					r.Fail("out/second-transfer/framing", "%s: bad framing at octet %d", desc(), off)
+					break
+				}
+				raw := out2[off+2 : off+2+int(binary.BigEndian.Uint16(out2[off:]))]
+				off += 2 + len(raw)
+				m := new(dns.Msg)
+				if err := m.Unpack(raw); err != nil || m.IsTsig() == nil {
+					r.Fail("out/second-transfer/unsigned", "%s: message %d of two transfers on one connection: unpack %v, TSIG present %v", desc(), i, err, err == nil && m.IsTsig() != nil)
+					break
+				}
+				first := i%len(envRR) == 0
+				if first {
+					prev = reqMAC
+				}
+				if err := dns.TsigVerify(append([]byte(nil), raw...), c15Secret, prev, !first); err != nil {
+					r.Fail("out/second-transfer/tsig-chain", "%s: two identical signed requests on one connection: message %d (message %d of transfer %d) does not verify (%s): %v", desc(), i, i%len(envRR), i/len(envRR)+1,
+						map[bool]string{true: "over the request MAC with all TSIG variables", false: "over the previous message's MAC, timers only"}[first], err)
+					break
+				}
+				prev = m.IsTsig().MAC
+			}
+		}
 	}
 	q := sh.refQuery(tsig)
 	exp := rx.Expect(q, envs)
